@@ -135,6 +135,7 @@ func (c19) Finish(w *mon.Worker, results []mon.Result) []mon.Result {
 // ---- per-case context ----------------------------------------------------------------------
 
 type c19ctx struct {
+	envExtra []string // extra environment of the next yq runs (nil: the default)
 	w        *mon.Worker
 	r        *rand.Rand
 	dir      string
@@ -224,7 +225,12 @@ func (c *c19ctx) yq(stdin []byte, args ...string) mon.ExecResult {
 	if stdin != nil {
 		line += "   # stdin: " + fmt.Sprintf("%q", clipStr(string(stdin), 60))
 	}
-	x := mon.Run(mon.RunOpts{Dir: c.dir, Stdin: stdin, Wall: 45 * time.Second}, append([]string{c.w.YqBin()}, args...)...)
+	opts := mon.RunOpts{Dir: c.dir, Stdin: stdin, Wall: 45 * time.Second}
+	if c.envExtra != nil {
+		opts.Env = mon.CleanEnv(c.envExtra...)
+		line += "   # env " + strings.Join(c.envExtra, " ")
+	}
+	x := mon.Run(opts, append([]string{c.w.YqBin()}, args...)...)
 	if x.Exit == -2 || x.Signal == 9 || x.Signal == 24 {
 		// the harness could not run/collect the process (overloaded machine: "WaitDelay expired", fork failure) or it was
 		// killed from outside / by the CPU rlimit: nothing was observed, so nothing is decided
